@@ -2,6 +2,7 @@ package main
 
 import (
 	"fmt"
+	"strings"
 
 	"github.com/mfcochauxlaberge/jsonapi"
 )
@@ -26,7 +27,7 @@ func (c04) Assumptions() []string {
 }
 func (c04) Floors(tier string, c map[string]int64) []string {
 	var out []string
-	for _, k := range []string{"objects/primary", "objects/included", "sel/missing-entry", "sel/empty", "sel/proper-subset", "rel_data_present", "rel_data_absent", "holder/SoftCollection", "holder/WrapperCollection", "holder/Resources"} {
+	for _, k := range []string{"objects/primary", "objects/included", "sel/missing-entry", "sel/empty", "sel/proper-subset", "rel_data_present", "rel_data_absent", "holder/SoftCollection", "holder/WrapperCollection", "holder/Resources", "direct/MarshalResource", "direct/MarshalCollection"} {
 		if c[k] == 0 {
 			out = append(out, "never observed: "+k)
 		}
@@ -99,6 +100,41 @@ func (m c04) run(c *Ctx, d *DocSpec) {
 	}
 	if d.Holder != "" {
 		c.Count("holder/" + d.Holder)
+	}
+	// the other two entry points with the same selection and request: MarshalResource on each resource and
+	// MarshalCollection on a Resources collection of all of them (wrapped into a document shape for the oracle)
+	if all := d.allResources(); len(all) > 0 {
+		var parts []string
+		var colOut []byte
+		if pi := Guard(func() {
+			col := &jsonapi.Resources{}
+			for _, rs := range all {
+				t := d.Schema.Type(rs.Type)
+				res := buildResource(t, rs)
+				parts = append(parts, string(jsonapi.MarshalResource(res, d.Prefix, append([]string{}, d.Fields[rs.Type]...), copyStrMap(d.RelData))))
+				col.Add(buildResource(t, rs))
+			}
+			colOut = jsonapi.MarshalCollection(col, d.Prefix, copyStrMap(d.Fields), copyStrMap(d.RelData))
+		}); pi != nil {
+			c.Violate("panic@"+pi.Frame+"/"+panicClass(pi.Val)+"/direct", "%s; doc %s", pi, clip(jsonStr(d), 2000))
+			return
+		}
+		for name, text := range map[string]string{"MarshalResource": `{"data":[` + strings.Join(parts, ",") + `]}`, "MarshalCollection": `{"data":` + string(colOut) + `}`} {
+			root2, err := parseJV([]byte(text))
+			if err != nil {
+				c.Violate("invalid-json/"+name, "%v: %s", err, clip(text, 400))
+				return
+			}
+			saved := d.Kind
+			d.Kind = "collection"
+			cl, msg := checkSparse(root2, d)
+			d.Kind = saved
+			if cl != "" {
+				c.Violate(cl+"/"+name, "%s; output %s; doc %s", msg, clip(text, 1200), clip(jsonStr(d), 2000))
+				return
+			}
+			c.Count("direct/" + name)
+		}
 	}
 	if proper && len(d.allResources()) > 0 {
 		c.Nontrivial(jsonStr(d))
